@@ -3,6 +3,11 @@
 // fake set of chips supplied by the harness instead of calling libsensors.
 package gosensors
 
+import (
+	"encoding/json"
+	"os"
+)
+
 type SubFeatureType int32
 type FeatureType int32
 
@@ -64,14 +69,26 @@ type Chip struct {
 	Features []Feature
 }
 
-func (c Chip) String() string        { return c.Prefix }
-func (c Chip) AdapterName() string   { return c.Bus.String() }
+func (c Chip) String() string         { return c.Prefix }
+func (c Chip) AdapterName() string    { return c.Bus.String() }
 func (c Chip) GetFeatures() []Feature { return c.Features }
 
 // Fake is the chip list GetDetectedChips returns, in this order.
 var Fake []Chip
 
-func Init()    {}
+// Init loads the fake chip list from the JSON file named by VERIF_GOSENSORS_JSON (if set and
+// Fake has not been set programmatically).
+func Init() {
+	if Fake != nil {
+		return
+	}
+	if p := os.Getenv("VERIF_GOSENSORS_JSON"); p != "" {
+		data, err := os.ReadFile(p)
+		if err == nil {
+			_ = json.Unmarshal(data, &Fake)
+		}
+	}
+}
 func Cleanup() {}
 
 func GetDetectedChips() []Chip { return Fake }
